@@ -88,7 +88,7 @@ def run(c, replay):
     progs, runs = C.campaign(c, ctx, r, 5 if c.tier == "quick" else 60, S.mask("MSG_ALLOC", "MSG_FREE"), c.tier, variants=("pred",), extra_cfgs=[(3, 1, 0)])
     runs = runs + C.lp_campaign(c, ctx, r, 8 if c.tier == "quick" else 120, S.mask("MSG_ALLOC", "MSG_FREE"))
     # ---- (3) several ranks: remote events, remote anti-messages (also early ones), exactly-once end to end
-    progs2, runs2 = C.campaign(c, ctx, r, 4 if c.tier == "quick" else 40, 0, c.tier, variants=("pred",), ranks_list=(2, 3), jobs=3)
+    progs2, runs2 = C.campaign(c, ctx, r, 4 if c.tier == "quick" else 40, 0, c.tier, variants=("pred",), ranks_list=(2, 3), jobs=3, nets=(None, "300,15000,20,%d" % (c.seed + 11), "100,8000,10,%d" % (c.seed + 12)))
     nfree = 0
     for run_ in runs + runs2:
         res, pr = run_["res"], run_["prog"]
